@@ -351,6 +351,9 @@ def h_check_next_arg(clsname, st, atype, add, chk):
             prove(both(chk, neg(payload in loaded)), "gate.sound")
         return
     # --- verdict
+    if exp[0] != "accept":
+        # C18.3 immediacy: an argument the definition does not allow is rejected by THIS call, with this token current
+        prove(kind != "accept", "rejected-by-the-call-that-receives-it")
     prove(kind == exp[0], "verdict")
     if kind != exp[0]:
         return
